@@ -241,6 +241,10 @@ class FormulaBuilder:
                 return self.build(e.args[0], _depth)
             if d in ('any', 'all'):
                 return opaque('call', canon(e))
+            # d.get(k, <empty>) in a boolean position is the truthiness of d[k]
+            if isinstance(e.func, ast.Attribute) and e.func.attr == 'get' and len(e.args) == 2 and not e.keywords \
+                    and _is_empty_literal(e.args[1]):
+                return truthy_atom(e)
             if self.inline is not None and _depth < self.inline_bound:
                 rep = self.inline(e)
                 if rep is not None:
